@@ -183,3 +183,7 @@ mod test {
         assert!(is_aligned(8, 4));
     }
 }
+
+// verification hook: harness text lives outside the repository (see MANIFEST.hooks)
+#[cfg(any(kani, sudachi_verif))]
+include!(concat!(env!("SUDACHI_VERIF_DIR"), "/util__cow_array.rs"));
